@@ -207,7 +207,10 @@ impl ParamGuard for CountVectorizerParams {
         let (n_gram_min, n_gram_max) = self.0.n_gram_range;
         let (min_freq, max_freq) = self.0.document_frequency;
 
-        if n_gram_min == 0 || n_gram_max == 0 {
+        if self.0.tokenizer_function.is_none() && self.0.tokenizer_deserialization_guard {
+            // deserialised parameters whose function tokenizer has not been supplied again
+            Err(PreprocessingError::TokenizerNotSet)
+        } else if n_gram_min == 0 || n_gram_max == 0 {
             Err(PreprocessingError::InvalidNGramBoundaries(
                 n_gram_min, n_gram_max,
             ))
